@@ -3,6 +3,7 @@ import GoagModel.Embed
 import GoagModel.Spec
 import GoagModel.Serve
 import GoagModel.Ref
+import GoagModel.Dir
 /-
   Line-protocol driver: one tab-separated request per line on stdin, one answer line on
   stdout.  The first field selects the model function.  Imports only executable model
@@ -84,6 +85,30 @@ def kfClasses (doc : Spec.Doc) (api : Serve.ApiM) (cors : Bool) (cfg : Serve.Cfg
       (if alts.any (fun a => a.any (fun n => (Ref.schemeRef doc n).isNone)) then ["KF-C11-unsupported"] else [])
   | none => []
 
+/-- C19 driver: initial pattern (5 owned files: '-' absent, 'S' stale; then 'F'/'-' for one
+    foreign file), history "hca:tag,..." (h = hasComponents, c = client, a = api as 0/1) -/
+def dirRun (init : String) (hist : String) : String :=
+  let names : List Dir.Name := [.components, .handler, .router, .specFile, .client]
+  let cs := init.toList
+  let d0 : Dir.Dir := fun f =>
+    match names.zip cs |>.find? (fun p => p.1 == f) with
+    | some (_, 'S') => some (.other 0)
+    | some _ => none
+    | none => if f == Dir.Name.foreign 0 && cs.getD 5 '-' == 'F' then some (.other 1) else none
+  let invs : List Dir.Inv := (hist.splitOn ",").filterMap (fun s =>
+    match s.splitOn ":" with
+    | [bits, tag] => match bits.toList with
+      | [h, c, a] => some { hasComponents := h == '1', client := c == '1', api := a == '1', tag := tag.toNat! }
+      | _ => none
+    | _ => none)
+  let d := Dir.run d0 invs
+  let show1 (f : Dir.Name) : String := match d f with
+    | none => "-"
+    | some (.gen t _) => s!"G{t}"
+    | some (.other 0) => "S"
+    | some (.other _) => "F"
+  " ".intercalate ((names ++ [Dir.Name.foreign 0]).map show1)
+
 def handle (st : State) (fields : List String) : IO (State × String) := do
   match fields with
   | ["embed", id, h] =>
@@ -113,6 +138,7 @@ def handle (st : State) (fields : List String) : IO (State × String) := do
         match Serve.plan doc (unhexD baseHex) (unhexD nameHex) (flag corsF) with
         | .error e => pure ({ st with doc := some doc, api := none }, s!"{pkg}\tplan-error:{e}")
         | .ok api => pure ({ st with doc := some doc, api := some api, cors := flag corsF, leaf := [] }, s!"{pkg}\tplan-ok base={api.base}")
+  | ["dirrun", id, init, hist] => pure (st, s!"{id}\t{dirRun init hist}")
   | ["leaf", tag, lexHex, res] =>
     pure ({ st with leaf := ((tag, unhexD lexHex), if res == "none" then none else some res) :: st.leaf }, "leaf-ok")
   | ["serve", id, method, pathHex, mws, nf, spec, cors, parse, auth, query, headers] =>
